@@ -173,7 +173,7 @@ Definition ok_under (a : ann) (ov : option value) : Z :=
     -10; per script step: value good as a yield; -11; good as return; -12; per operation: sent value good; -13; on_throw object good as yield; as return] *)
 Definition eval_gen (cl : list (nat * cls)) (f : fn) (c : call) (ot : on_throw) (script : list gstep) (ops : list gop) : list Z :=
   let ctx := ctx_of cl in
-  let head := [enc_b (c03_args_bad ctx f c); enc_b (c04_call_ok ctx f c)] in
+  let head := [enc_b (c03_args_bad ctx f c); enc_b (c04_args_ok ctx f c)] in
   match run_gen1 ctx f c with
   | (Raise e, _) => exn_code e :: head ++ [-3; -5; -4; -6; -7; -8; -9; -10; -11; -12; -13]
   | (Ok g, _) =>
